@@ -1,15 +1,419 @@
-//! C04 harness (stub).
+//! C04: downsampling commutes with sketching and with every comparison.
+//!
+//! Registers hold real `KmerMinHash` / `KmerMinHashBTree` values; see lean/Driver/C04.lean for the
+//! model/spec side of every op.
+use sourmash::encodings::HashFunctions;
+use sourmash::prelude::*;
+use sourmash::selection::Selection;
+use sourmash::signature::Signature;
+use sourmash::sketch::minhash::{max_hash_for_scaled, KmerMinHash, KmerMinHashBTree};
+use sourmash::sketch::Sketch;
+use std::collections::BTreeMap;
 use verif_harness::*;
 
-fn gen(_a: &Args) {
-    let mut o = Out::new();
-    o.case("stub");
+#[derive(Clone)]
+enum Reg {
+    V(KmerMinHash),
+    T(KmerMinHashBTree),
 }
 
-fn step(_: &mut (), ws: &[&str]) -> String {
+fn mol(s: &str) -> HashFunctions {
+    match s {
+        "protein" => HashFunctions::Murmur64Protein,
+        "dayhoff" => HashFunctions::Murmur64Dayhoff,
+        "hp" => HashFunctions::Murmur64Hp,
+        _ => HashFunctions::Murmur64Dna,
+    }
+}
+
+fn obs(r: &Reg) -> String {
+    let (mh, m, a) = match r {
+        Reg::V(x) => (x.max_hash(), x.mins(), x.abunds()),
+        Reg::T(x) => (x.max_hash(), x.mins(), x.abunds()),
+    };
+    format!(
+        "mh={} mins={} abunds={}",
+        mh,
+        show_nats(m),
+        match a {
+            Some(a) => show_nats(a),
+            None => "none".into(),
+        }
+    )
+}
+
+fn parse_pairs(s: &str) -> Vec<(u64, u64)> {
+    if s == "-" || s.is_empty() {
+        return vec![];
+    }
+    s.split(',')
+        .map(|w| {
+            let mut it = w.split(':');
+            let h = it.next().unwrap().parse().unwrap();
+            let a = it.next().map(|x| x.parse().unwrap()).unwrap_or(1);
+            (h, a)
+        })
+        .collect()
+}
+
+struct St {
+    tree: bool,
+    regs: BTreeMap<u64, Reg>,
+}
+
+fn err<E: std::fmt::Debug>(e: E) -> String {
+    let s = format!("{:?}", e);
+    let name: String = s.chars().take_while(|c| c.is_alphanumeric()).collect();
+    format!("err {}", name)
+}
+
+fn bits(x: f64) -> String {
+    format!("{:016x}", x.to_bits())
+}
+
+fn scaled_of(r: &Reg) -> u64 {
+    match r {
+        Reg::V(x) => x.scaled(),
+        Reg::T(x) => x.scaled(),
+    }
+}
+
+fn ds(r: &Reg, s: u64) -> Result<Reg, sourmash::Error> {
+    Ok(match r {
+        Reg::V(x) => Reg::V(x.clone().downsample_scaled(s)?),
+        Reg::T(x) => Reg::T(x.clone().downsample_scaled(s)?),
+    })
+}
+
+fn step(st: &mut St, ws: &[&str]) -> String {
+    let n = |i: usize| -> u64 { ws[i].parse().unwrap() };
+    // operand registers must exist (a refused downsample leaves its target register unset)
+    let srcs: &[usize] = match ws[0] {
+        "obs" | "scaled" | "add" => &[1],
+        "copy" | "ds" | "dsm" => &[2],
+        "merge" | "isect" | "cc" | "sim" | "ccx" | "simx" | "iszx" => &[1, 2],
+        _ => &[],
+    };
+    if srcs.iter().any(|&i| !st.regs.contains_key(&n(i))) {
+        return "bad-reg".into();
+    }
+    if ws[0] == "sel" && ws[2..].iter().any(|w| !st.regs.contains_key(&w.parse().unwrap())) {
+        return "bad-reg".into();
+    }
     match ws[0] {
-        "case" => "ok".into(),
+        "case" => {
+            st.tree = ws.get(2) == Some(&"tree");
+            st.regs.clear();
+            "ok".into()
+        }
+        "new" => {
+            let (scaled, num, ksize, seed, track) = (n(2), n(3) as u32, n(4) as u32, n(6), ws[7] == "1");
+            let r = if st.tree {
+                Reg::T(KmerMinHashBTree::new(scaled, ksize, mol(ws[5]), seed, track, num))
+            } else {
+                Reg::V(KmerMinHash::new(scaled, ksize, mol(ws[5]), seed, track, num))
+            };
+            st.regs.insert(n(1), r);
+            "ok".into()
+        }
+        "copy" => {
+            let b = st.regs[&n(2)].clone();
+            st.regs.insert(n(1), b);
+            "ok".into()
+        }
+        "obs" => obs(&st.regs[&n(1)]),
+        "scaled" => format!("scaled={}", scaled_of(&st.regs[&n(1)])),
+        "add" => {
+            let ps = parse_pairs(ws[2]);
+            let r = st.regs.get_mut(&n(1)).unwrap();
+            match r {
+                Reg::V(x) => x.add_many_with_abund(&ps).unwrap(),
+                Reg::T(x) => x.add_many_with_abund(&ps).unwrap(),
+            }
+            obs(r)
+        }
+        "merge" => {
+            let b = st.regs[&n(2)].clone();
+            let r = st.regs.get_mut(&n(1)).unwrap();
+            let res = match (&mut *r, &b) {
+                (Reg::V(x), Reg::V(y)) => x.merge(y),
+                (Reg::T(x), Reg::T(y)) => x.merge(y),
+                _ => return "bad-op".into(),
+            };
+            match res {
+                Ok(()) => obs(r),
+                Err(e) => err(e),
+            }
+        }
+        // ds R1 R2 s : R1 := R2.clone().downsample_scaled(s)
+        "ds" | "dsm" => {
+            let src = st.regs[&n(2)].clone();
+            let res = match (ws[0], src) {
+                ("ds", Reg::V(x)) => x.downsample_scaled(n(3)).map(Reg::V),
+                ("ds", Reg::T(x)) => x.downsample_scaled(n(3)).map(Reg::T),
+                ("dsm", Reg::V(x)) => x.downsample_max_hash(n(3)).map(Reg::V),
+                ("dsm", Reg::T(x)) => x.downsample_max_hash(n(3)).map(Reg::T),
+                _ => return "bad-op".into(),
+            };
+            match res {
+                Ok(r) => {
+                    let s = obs(&r);
+                    st.regs.insert(n(1), r);
+                    s
+                }
+                Err(e) => err(e),
+            }
+        }
+        "isect" => {
+            let res = match (&st.regs[&n(1)], &st.regs[&n(2)]) {
+                (Reg::V(x), Reg::V(y)) => x.intersection(y),
+                (Reg::T(x), Reg::T(y)) => x.intersection(y),
+                _ => return "bad-op".into(),
+            };
+            match res {
+                Ok((c, u)) => format!("common={} union={}", show_nats(c), u),
+                Err(e) => err(e),
+            }
+        }
+        // cc R1 R2 d
+        "cc" => {
+            let d = ws[3] == "1";
+            let res = match (&st.regs[&n(1)], &st.regs[&n(2)]) {
+                (Reg::V(x), Reg::V(y)) => x.count_common(y, d),
+                (Reg::T(x), Reg::T(y)) => x.count_common(y, d),
+                _ => return "bad-op".into(),
+            };
+            match res {
+                Ok(c) => format!("common={}", c),
+                Err(e) => err(e),
+            }
+        }
+        // sim R1 R2 ignore_abundance downsample
+        "sim" => {
+            let (ig, d) = (ws[3] == "1", ws[4] == "1");
+            let res = match (&st.regs[&n(1)], &st.regs[&n(2)]) {
+                (Reg::V(x), Reg::V(y)) => x.similarity(y, ig, d),
+                (Reg::T(x), Reg::T(y)) => x.similarity(y, ig, d),
+                _ => return "bad-op".into(),
+            };
+            match res {
+                Ok(f) => bits(f),
+                Err(e) => err(e),
+            }
+        }
+        // the explicit route: downsample both to the larger scaled, then compare without downsampling
+        "ccx" | "simx" | "iszx" => {
+            let (a, b) = (&st.regs[&n(1)], &st.regs[&n(2)]);
+            let m = scaled_of(a).max(scaled_of(b));
+            let (a2, b2) = match (ds(a, m), ds(b, m)) {
+                (Ok(a2), Ok(b2)) => (a2, b2),
+                (Err(e), _) | (_, Err(e)) => return err(e),
+            };
+            match ws[0] {
+                "ccx" => {
+                    let res = match (&a2, &b2) {
+                        (Reg::V(x), Reg::V(y)) => x.count_common(y, false),
+                        (Reg::T(x), Reg::T(y)) => x.count_common(y, false),
+                        _ => return "bad-op".into(),
+                    };
+                    match res {
+                        Ok(c) => format!("common={}", c),
+                        Err(e) => err(e),
+                    }
+                }
+                "iszx" => {
+                    let res = match (&a2, &b2) {
+                        (Reg::V(x), Reg::V(y)) => x.intersection_size(y),
+                        (Reg::T(x), Reg::T(y)) => x.intersection_size(y),
+                        _ => return "bad-op".into(),
+                    };
+                    match res {
+                        Ok((c, u)) => format!("common={} union={}", c, u),
+                        Err(e) => err(e),
+                    }
+                }
+                _ => {
+                    let ig = ws[3] == "1";
+                    let res = match (&a2, &b2) {
+                        (Reg::V(x), Reg::V(y)) => x.similarity(y, ig, false),
+                        (Reg::T(x), Reg::T(y)) => x.similarity(y, ig, false),
+                        _ => return "bad-op".into(),
+                    };
+                    match res {
+                        Ok(f) => bits(f),
+                        Err(e) => err(e),
+                    }
+                }
+            }
+        }
+        // sel s R... : a signature holding the listed sketches, selected at scaled s
+        "sel" => {
+            let mut sig = Signature::default();
+            for w in &ws[2..] {
+                let r: u64 = w.parse().unwrap();
+                sig.push(match st.regs[&r].clone() {
+                    Reg::V(x) => Sketch::MinHash(x),
+                    Reg::T(x) => Sketch::LargeMinHash(x),
+                });
+            }
+            let mut sel = Selection::default();
+            sel.set_scaled(n(1) as u32);
+            match sig.select(&sel) {
+                Ok(sig) => {
+                    let sk = sig.sketches();
+                    let mut out = format!("n={}", sk.len());
+                    for s in sk {
+                        let r = match s {
+                            Sketch::MinHash(x) => Reg::V(x),
+                            Sketch::LargeMinHash(x) => Reg::T(x),
+                            _ => return "bad-sketch".into(),
+                        };
+                        out.push_str(" | ");
+                        out.push_str(&obs(&r));
+                    }
+                    out
+                }
+                Err(e) => err(e),
+            }
+        }
         _ => "bad-op".into(),
+    }
+}
+
+// ------------------------------------------------------------------------------------ generator
+
+const SCALEDS: [u64; 10] = [1, 2, 3, 7, 93, 100, 1000, 2000, 10_000, 1 << 31];
+
+fn show_items(v: &[(u64, u64)]) -> String {
+    if v.is_empty() {
+        "-".into()
+    } else {
+        v.iter().map(|(h, a)| format!("{}:{}", h, a)).collect::<Vec<_>>().join(",")
+    }
+}
+
+/// hashes concentrated around the ceilings of the given scaled values
+fn universe(r: &mut Rng, ss: &[u64]) -> Vec<u64> {
+    let mut u: Vec<u64> = vec![];
+    let n = r.range(5, 16);
+    for _ in 0..n {
+        let s = *r.pick(ss);
+        let mh = max_hash_for_scaled(s);
+        let v = match r.below(8) {
+            0 => r.below(10),
+            1 => r.bits(64),
+            2 | 3 => mh.saturating_sub(r.below(3)),
+            4 | 5 => mh.saturating_add(r.range(1, 2)),
+            6 => mh / 2 + r.below(3),
+            _ => r.below(mh.max(1)),
+        };
+        if !u.contains(&v) {
+            u.push(v);
+        }
+    }
+    u
+}
+
+fn items(r: &mut Rng, u: &[u64], p_num: u64, p_den: u64) -> Vec<(u64, u64)> {
+    let mut v: Vec<(u64, u64)> = vec![];
+    for &k in u {
+        if r.chance(p_num, p_den) {
+            let reps = if r.chance(1, 4) { 2 } else { 1 };
+            for _ in 0..reps {
+                v.push((k, r.range(1, 6)));
+            }
+        }
+    }
+    for i in (1..v.len()).rev() {
+        let j = r.below(i as u64 + 1) as usize;
+        v.swap(i, j);
+    }
+    v
+}
+
+fn new_line(reg: u64, scaled: u64, num: u64, track: bool) -> String {
+    format!("new {} {} {} 21 dna 42 {}", reg, scaled, num, track as u8)
+}
+
+fn gen(a: &Args) {
+    let mut r = Rng::new(a.seed);
+    let mut o = Out::new();
+    let rounds = if a.cases > 0 {
+        a.cases
+    } else if a.tier == "thorough" {
+        400
+    } else {
+        20
+    };
+    let mut ci = 0u64;
+    for round in 0..rounds {
+        // every ordered pair (s, s') of the scaled table, both container types
+        for &s in &SCALEDS {
+            for &s2 in &SCALEDS {
+                ci += 1;
+                let ty = if (ci + round) % 2 == 0 { "vec" } else { "tree" };
+                let s3 = *r.pick(&SCALEDS);
+                let u = universe(&mut r, &[s, s2, s3]);
+                let (ta, tb) = (r.chance(3, 4), r.chance(3, 4));
+                o.case(&format!("{} pair {} {}", ty, s, s2));
+                o.op(&new_line(0, s, 0, ta));
+                o.op(&new_line(1, s2, 0, tb));
+                let ia = items(&mut r, &u, 3, 4);
+                let ib = items(&mut r, &u, 3, 4);
+                o.op(&format!("add 0 {}", show_items(&ia)));
+                o.op(&format!("add 1 {}", show_items(&ib)));
+                o.op("scaled 0");
+                // downsample of a to s2 (refused when s2 < s), idempotence, composition through s3
+                o.op(&format!("ds 2 0 {}", s2));
+                o.op("obs 2");
+                o.op(&format!("ds 3 2 {}", s2));
+                let (lo, hi) = (s2.min(s3), s2.max(s3));
+                o.op(&format!("ds 4 0 {}", lo));
+                o.op(&format!("ds 5 4 {}", hi));
+                o.op(&format!("ds 6 0 {}", hi));
+                // sketching the same data directly at s2
+                o.op(&new_line(7, s2, 0, ta));
+                o.op(&format!("add 7 {}", show_items(&ia)));
+                // downsample_max_hash with the ceiling of s2
+                o.op(&format!("dsm 8 0 {}", max_hash_for_scaled(s2)));
+                // every comparison entry point with downsample = true, both argument orders
+                for op in [
+                    "cc 0 1 1", "cc 1 0 1", "ccx 0 1", "ccx 1 0", "iszx 0 1", "iszx 1 0",
+                    "sim 0 1 1 1", "sim 1 0 1 1", "simx 0 1 1", "simx 1 0 1",
+                    "sim 0 1 0 1", "sim 1 0 0 1", "simx 0 1 0", "simx 1 0 0",
+                    "cc 0 1 0", "sim 0 1 1 0",
+                ] {
+                    o.op(op);
+                }
+                // operands are never modified
+                o.op("obs 0");
+                o.op("obs 1");
+                // downsample commutes with merge and intersection (at the larger scaled)
+                let m = s.max(s2);
+                o.op(&new_line(9, s, 0, tb));
+                o.op(&format!("add 9 {}", show_items(&ib)));
+                o.op("copy 10 0");
+                o.op("merge 10 9");
+                o.op(&format!("ds 11 10 {}", m)); // ds (a ∪ b)
+                o.op(&format!("ds 12 0 {}", m));
+                o.op(&format!("ds 13 9 {}", m));
+                o.op("merge 12 13"); // ds a ∪ ds b
+                o.op("isect 12 13");
+                o.op("isect 0 9");
+                // Signature::select at s2 (and with a second sketch at another scaled, and a num sketch)
+                o.op(&format!("sel {} 0", s2));
+                o.op(&new_line(14, 0, 5, ta));
+                o.op(&format!("add 14 {}", show_items(&ia)));
+                o.op(&format!("sel {} 0 1 14", s2.max(s3)));
+                o.op(&format!("sel {} 14", s2));
+                // num sketches pass through downsampling unchanged
+                o.op(&format!("ds 15 14 {}", s2));
+                o.op(&format!("dsm 15 14 {}", max_hash_for_scaled(s2)));
+                o.op("cc 14 14 1");
+                o.op("cc 0 14 1");
+                o.op("obs 14");
+            }
+        }
     }
 }
 
@@ -17,7 +421,13 @@ fn main() {
     let a = args();
     match a.mode.as_str() {
         "gen" => gen(&a),
-        "exec" => exec_loop(|| (), step),
+        "exec" => exec_loop(
+            || St {
+                tree: false,
+                regs: BTreeMap::new(),
+            },
+            step,
+        ),
         _ => panic!("mode"),
     }
 }
